@@ -158,7 +158,7 @@ def _run_task(args):
                                        "reason": "refuted in bounded mode; unbounded attempt skipped",
                                        "pathlen": len(o.trace)})
                 continue
-            r = vc.discharge(o, timeout_ms, use_cvc5=use_cvc5)
+            r = vc.discharge(o, timeout_ms, use_cvc5=use_cvc5, prefer_ematch=concrete is None and getattr(c, "prefer_ematch", False))
             rec = {"name": o.name, "kind": o.kind, "tags": o.info.get("tags") or [], "status": r["status"],
                    "backend": r["backend"], "seconds": round(r["seconds"], 4), "reason": r.get("reason", ""),
                    "pathlen": len(o.trace)}
